@@ -79,7 +79,9 @@ def build_nfa(spec):
 
 
 def build_pda(spec):
-    delta = defaultdict(set)
+    # a PDA put together in code may carry a plain dict that has only the keys of its transitions: the library reads
+    # PDA transition maps through .items() only, so that is a legal argument everywhere
+    delta = defaultdict(set) if spec.get('dd', True) else {}
     for p, a, u in spec.get('stray_keys', ()):
         pass    # a corrupted object is never rebuilt with its stray entries: constructors would refuse it
     shared = {}
@@ -262,6 +264,8 @@ def rebuild_hints(obj):
         if not dd:
             h['empty_keys'] = sorted([str(q), str(a)] for (q, a), T in obj.delta.items() if len(T) == 0)
         return h
+    if isinstance(obj, PDA):
+        return {'dd': isinstance(obj.delta, defaultdict)}
     return {}
 
 
